@@ -15,6 +15,7 @@ From Coq Require Import String.
 From Coq Require Import ZArith List Bool Lia Arith.
 Import ListNotations.
 From Cedar Require Import Base.Utf8 Base.Utf8Enc Lang.Value Impl.Tokenizer Impl.Quote Impl.PolicyJson Impl.SchemaJson Impl.SchemaText.
+From Cedar Require Import Impl.SchemaResolve Proofs.SchemaResolveProofs.
 From Cedar Require Import Proofs.ValueProofs Proofs.ValueJsonProofs Proofs.QuoteProofs Proofs.SchemaJsonProofs Proofs.SchemaTextProofs1.
 Local Open Scope Z_scope.
 
@@ -705,7 +706,7 @@ Definition tags_text (ind : nat) (tags : option xty) : str :=
 Definition shape_text (ind : nat) (shape : option xrec) : str :=
   match shape with None => [] | Some fs => [32] ++ print_type (XRec fs) ind end.
 Definition parents_text (parents : list str) : str :=
-  match parents with [] => [] | l => s_of " in " ++ print_list l end.
+  match parents with [] => [] | p :: ps => s_of " in " ++ print_list (p :: ps) end.
 
 Lemma frag_tags_lemma : forall tags ind fuel rest, opt_wf_tty tags = true ->
   (2 * length (tags_text ind tags ++ 59%Z :: 10%Z :: rest) + 4 <= fuel)%nat ->
@@ -832,7 +833,7 @@ Lemma G2_dcolon : forall st, G2 st -> is st KDoubleColon = false.
 Proof. intros st H. gtk H. Qed.
 
 Definition aparents_text (l : list (str * str)) : str :=
-  match l with [] => [] | _ => s_of " in " ++ print_list (map print_parent_ref l) end.
+  match l with [] => [] | p :: ps => s_of " in " ++ print_list (map print_parent_ref (p :: ps)) end.
 Definition applies_opt_text (ind : nat) (o : option x_applies) : str :=
   match o with None => [] | Some ap => print_applies ind ap end.
 Definition ctx_text (ind : nat) (c : option xty) : str :=
@@ -944,4 +945,401 @@ Proof.
   destruct fuel as [|f]; [exfalso; flen|]. cbn [names_rest]. rewrite (G1_comma _ HG1). cbn [negb sbind].
   rewrite Hp1. cbn [sbind]. rewrite Hp2. cbn [sbind]. unfold frag_attrs. sst.
   rewrite rd_nl, Hrd. sst. cbn [add_actions]. rewrite Hhk. reflexivity.
+Qed.
+
+(* ------------------------------------------------------------------------------------------ *)
+(* One declaration block                                                                       *)
+(* ------------------------------------------------------------------------------------------ *)
+Inductive ditem := DC (kv : str * x_common) | DE (kv : str * x_entity) | DN (kv : str * x_enum) | DA (kv : str * x_action).
+
+Definition print_item (ind : nat) (it : ditem) : str :=
+  match it with
+  | DC kv => print_common ind kv | DE kv => print_entity ind kv | DN kv => print_enum ind kv | DA kv => print_action ind kv
+  end.
+Definition wf_item (it : ditem) : bool :=
+  match it with
+  | DC kv => is_valid_ident (fst kv) && negb (is_reserved_type_name (fst kv)) && wf_common_t (snd kv)
+  | DE kv => is_valid_ident (fst kv) && wf_entity_t (snd kv)
+  | DN kv => is_valid_ident (fst kv) && wf_enum_t (snd kv)
+  | DA kv => name_ok (fst kv) && wf_action_t (snd kv)
+  end.
+Definition fresh_item (it : ditem) (n : x_ns) : bool :=
+  match it with
+  | DC kv => negb (has_key (fst kv) (xs_commons n))
+  | DE kv => negb (has_key (fst kv) (xs_entities n) || has_key (fst kv) (xs_enums n))
+  | DN kv => negb (has_key (fst kv) (xs_enums n) || has_key (fst kv) (xs_entities n))
+  | DA kv => negb (has_key (fst kv) (xs_actions n))
+  end.
+Definition add_item (it : ditem) (n : x_ns) : x_ns :=
+  match it with
+  | DC kv => set_commons n (rec_insert (fst kv) (norm_common_t (snd kv)) (xs_commons n))
+  | DE kv => set_entities n (rec_insert (fst kv) (norm_entity_t (snd kv)) (xs_entities n))
+  | DN kv => set_enums n (rec_insert (fst kv) (snd kv) (xs_enums n))
+  | DA kv => set_actions n (rec_insert (fst kv) (norm_action_t (snd kv)) (xs_actions n))
+  end.
+
+Lemma decl_wrap : forall an ind (kwd : string) body fuel, annots_ok an = true -> word (s_of kwd) = true ->
+  is_reserved (s_of kwd) = false ->
+  (2 * length (pa ind an ++ tabs ind ++ s_of kwd ++ 32%Z :: body) + 1 <= fuel)%nat ->
+  exists st, rd (pa ind an ++ tabs ind ++ s_of kwd ++ 32 :: body) = SOk st /\ In (tk st) [KAt; KIdent]
+             /\ parse_annotations fuel [] st = SOk (an, MkSt (mk_tok KIdent (s_of kwd)) (32 :: body)).
+Proof.
+  intros an ind kwd body fuel Han Hw Hres Hf. destruct (annots_ok_inv an Han) as [Hs Hok].
+  destruct (annots_lemma an [] ind fuel (tabs ind ++ s_of kwd ++ 32 :: body) (MkSt (mk_tok KIdent (s_of kwd)) (32 :: body)) Hs Hok
+              ltac:(rewrite rd_tabs; apply rd_kw; [exact Hw|rewrite Hres; reflexivity|reflexivity]) eq_refl eq_refl Hf) as (st & Hrd & Hp & Hk).
+  exists st. split; [exact Hrd|]. split; [|exact Hp]. destruct Hk as [Hk|Hk]; [rewrite Hk; cbn [In]; tauto|subst st; cbn [In]; tauto].
+Qed.
+
+Lemma common_text : forall ind kv rest, keys_sorted (xc_annots (snd kv)) = true ->
+  print_common ind kv ++ rest
+  = pa ind (xc_annots (snd kv)) ++ tabs ind ++ s_of "type" ++ 32 :: fst kv ++ 32 :: 61 :: 32 :: print_type (xc_type (snd kv)) ind ++ 59 :: 10 :: rest.
+Proof.
+  intros ind kv rest Hs. unfold print_common. rewrite (print_annotations_sorted _ _ Hs).
+  change (s_of "type ") with (s_of "type" ++ [32]). tnorm. reflexivity.
+Qed.
+
+Lemma entity_text : forall ind kv rest, keys_sorted (xe_annots (snd kv)) = true ->
+  print_entity ind kv ++ rest
+  = pa ind (xe_annots (snd kv)) ++ tabs ind ++ s_of "entity" ++ 32 :: fst kv ++ parents_text (xe_parents (snd kv))
+    ++ shape_text ind (xe_shape (snd kv)) ++ tags_text ind (xe_tags (snd kv)) ++ 59 :: 10 :: rest.
+Proof.
+  intros ind kv rest Hs. unfold print_entity, parents_text, shape_text, tags_text. cbv zeta. rewrite (print_annotations_sorted _ _ Hs).
+  change (s_of "entity ") with (s_of "entity" ++ [32]). tnorm. reflexivity.
+Qed.
+
+Lemma enum_text : forall ind kv rest, keys_sorted (xn_annots (snd kv)) = true ->
+  print_enum ind kv ++ rest
+  = pa ind (xn_annots (snd kv)) ++ tabs ind ++ s_of "entity" ++ 32 :: fst kv ++ 32 :: s_of "enum" ++ 32 :: 91
+    :: join_comma (map quote_cedar (xn_values (snd kv))) ++ 93 :: 59 :: 10 :: rest.
+Proof.
+  intros ind kv rest Hs. unfold print_enum. rewrite (print_annotations_sorted _ _ Hs).
+  change (s_of "entity ") with (s_of "entity" ++ [32]). change (s_of " enum [") with (32 :: s_of "enum" ++ [32; 91]). tnorm. reflexivity.
+Qed.
+
+Lemma action_text : forall ind kv rest, keys_sorted (xac_annots (snd kv)) = true ->
+  print_action ind kv ++ rest
+  = pa ind (xac_annots (snd kv)) ++ tabs ind ++ s_of "action" ++ 32 :: print_name (fst kv) ++ aparents_text (xac_parents (snd kv))
+    ++ applies_opt_text ind (xac_applies (snd kv)) ++ 59 :: 10 :: rest.
+Proof.
+  intros ind kv rest Hs. unfold print_action, aparents_text, applies_opt_text. cbv zeta. rewrite (print_annotations_sorted _ _ Hs).
+  change (s_of "action ") with (s_of "action" ++ [32]). tnorm. reflexivity.
+Qed.
+
+Lemma item_lemma : forall it ind n fuel rest st', wf_item it = true -> fresh_item it n = true -> rd rest = SOk st' ->
+  (2 * length (print_item ind it ++ rest) + 12 <= fuel)%nat ->
+  exists st st1 an, rd (print_item ind it ++ rest) = SOk st /\ In (tk st) [KAt; KIdent]
+    /\ parse_annotations fuel [] st = SOk (an, st1) /\ is st1 KIdent = true /\ kw st1 "namespace" = false
+    /\ parse_decl fuel an n st1 = SOk (add_item it n, st').
+Proof.
+  intros [[name c]|[name e]|[name e]|[name a]] ind n fuel rest st' Hwf Hfresh Hrd Hf; cbn [print_item wf_item fresh_item add_item fst snd] in *.
+  - apply andb_true_iff in Hwf. destruct Hwf as [Hwf Hc]. apply andb_true_iff in Hwf. destruct Hwf as [Hname Hrtn].
+    apply negb_true_iff in Hrtn, Hfresh. unfold wf_common_t in Hc. apply andb_true_iff in Hc. destruct Hc as [Han Hty].
+    destruct (annots_ok_inv _ Han) as [Hans _].
+    rewrite (common_text ind (name, c) rest Hans) in Hf |- *. cbn [fst snd] in Hf |- *.
+    match goal with |- context [rd (pa ind ?an ++ tabs ind ++ s_of ?kwd ++ 32 :: ?body)] =>
+      destruct (decl_wrap an ind kwd body fuel Han eq_refl eq_refl ltac:(flen)) as (st & Hrds & Hk & Hp) end.
+    exists st. eexists. eexists. split; [exact Hrds|]. split; [exact Hk|]. split; [exact Hp|]. split; [reflexivity|]. split; [reflexivity|].
+    apply (common_decl ind name (xc_type c)); try assumption. flen.
+  - apply andb_true_iff in Hwf. destruct Hwf as [Hname He]. apply negb_true_iff in Hfresh.
+    assert (Han : annots_ok (xe_annots e) = true).
+    { unfold wf_entity_t in He. apply andb_true_iff in He. destruct He as [He _]. apply andb_true_iff in He. destruct He as [He _].
+      apply andb_true_iff in He. destruct He as [He _]. exact He. }
+    destruct (annots_ok_inv _ Han) as [Hans _].
+    rewrite (entity_text ind (name, e) rest Hans) in Hf |- *. cbn [fst snd] in Hf |- *.
+    match goal with |- context [rd (pa ind ?an ++ tabs ind ++ s_of ?kwd ++ 32 :: ?body)] =>
+      destruct (decl_wrap an ind kwd body fuel Han eq_refl eq_refl ltac:(flen)) as (st & Hrds & Hk & Hp) end.
+    exists st. eexists. eexists. split; [exact Hrds|]. split; [exact Hk|]. split; [exact Hp|]. split; [reflexivity|]. split; [reflexivity|].
+    apply (entity_decl ind name e); try assumption. flen.
+  - apply andb_true_iff in Hwf. destruct Hwf as [Hname He]. apply negb_true_iff in Hfresh.
+    unfold wf_enum_t in He. apply andb_true_iff in He. destruct He as [Han Hvs].
+    destruct (annots_ok_inv _ Han) as [Hans _].
+    rewrite (enum_text ind (name, e) rest Hans) in Hf |- *. cbn [fst snd] in Hf |- *.
+    match goal with |- context [rd (pa ind ?an ++ tabs ind ++ s_of ?kwd ++ 32 :: ?body)] =>
+      destruct (decl_wrap an ind kwd body fuel Han eq_refl eq_refl ltac:(flen)) as (st & Hrds & Hk & Hp) end.
+    exists st. eexists. eexists. split; [exact Hrds|]. split; [exact Hk|]. split; [exact Hp|]. split; [reflexivity|]. split; [reflexivity|].
+    destruct e as [ean evs]. cbn [xn_annots xn_values] in *. apply enum_decl; try assumption. flen.
+  - apply andb_true_iff in Hwf. destruct Hwf as [Hname Ha]. apply negb_true_iff in Hfresh.
+    assert (Han : annots_ok (xac_annots a) = true).
+    { unfold wf_action_t in Ha. apply andb_true_iff in Ha. destruct Ha as [Ha _]. apply andb_true_iff in Ha. destruct Ha as [Ha _]. exact Ha. }
+    destruct (annots_ok_inv _ Han) as [Hans _].
+    rewrite (action_text ind (name, a) rest Hans) in Hf |- *. cbn [fst snd] in Hf |- *.
+    match goal with |- context [rd (pa ind ?an ++ tabs ind ++ s_of ?kwd ++ 32 :: ?body)] =>
+      destruct (decl_wrap an ind kwd body fuel Han eq_refl eq_refl ltac:(flen)) as (st & Hrds & Hk & Hp) end.
+    exists st. eexists. eexists. split; [exact Hrds|]. split; [exact Hk|]. split; [exact Hp|]. split; [reflexivity|]. split; [reflexivity|].
+    apply (action_decl ind name a); try assumption. flen.
+Qed.
+
+(* ------------------------------------------------------------------------------------------ *)
+(* The declaration loop of a namespace                                                         *)
+(* ------------------------------------------------------------------------------------------ *)
+Fixpoint fresh_chain (its : list ditem) (n : x_ns) : Prop :=
+  match its with [] => True | it :: r => fresh_item it n = true /\ fresh_chain r (add_item it n) end.
+Definition add_items (its : list ditem) (n : x_ns) : x_ns := fold_left (fun n it => add_item it n) its n.
+
+Lemma join_blocks_cons : forall first b r, join_blocks first (b :: r) = (if first then [] else [10]) ++ b ++ join_blocks false r.
+Proof. reflexivity. Qed.
+Lemma rd_first : forall (first : bool) s, rd ((if first then [] else [10]) ++ s) = rd s.
+Proof. intros [|] s; [reflexivity|apply rd_nl]. Qed.
+
+Lemma print_item_len : forall ind it, (1 <= length (print_item ind it))%nat.
+Proof.
+  intros ind [kv|kv|kv|kv]; unfold print_item, print_common, print_entity, print_enum, print_action; cbv zeta;
+    repeat rewrite app_length; cbn [length]; lia.
+Qed.
+
+Lemma namespace_loop_lemma : forall its first n fuel rest st', forallb wf_item its = true -> fresh_chain its n -> rd rest = SOk st' ->
+  (2 * length (join_blocks first (map (print_item 1) its) ++ 125%Z :: 10%Z :: rest) + 14 <= fuel)%nat ->
+  exists st, rd (join_blocks first (map (print_item 1) its) ++ 125 :: 10 :: rest) = SOk st
+             /\ namespace_loop fuel n st = SOk (add_items its n, st').
+Proof.
+  induction its as [|it its IH]; intros first n fuel rest st' Hwf Hfr Hrd Hf.
+  - cbn [map join_blocks app] in *. eexists. split; [apply rd_rbrace|].
+    destruct fuel as [|f]; [exfalso; flen|]. cbn [namespace_loop]. sst. rewrite rd_nl, Hrd. reflexivity.
+  - cbn [map forallb] in *. apply andb_true_iff in Hwf. destruct Hwf as [Hit Hwf]. destruct Hfr as [Hfi Hfr].
+    rewrite join_blocks_cons in Hf |- *. rewrite <- !app_assoc in Hf |- *. rewrite rd_first.
+    destruct fuel as [|f]; [exfalso; flen|].
+    pose proof (print_item_len 1 it) as Hlen.
+    destruct (IH false (add_item it n) f rest st' Hwf Hfr Hrd ltac:(destruct first; flen)) as (st2 & Hrd2 & Hp2).
+    destruct (item_lemma it 1 n f _ st2 Hit Hfi Hrd2 ltac:(destruct first; flen)) as (st & st1 & an & Hrds & Hk & Hpa & _ & _ & Hpd).
+    exists st. split; [exact Hrds|]. cbn [namespace_loop].
+    rewrite (is_no st KRBrace _ Hk), (is_no st KEOF _ Hk) by reflexivity.
+    rewrite Hpa. cbn [sbind]. rewrite Hpd. cbn [sbind]. exact Hp2.
+Qed.
+
+(* ------------------------------------------------------------------------------------------ *)
+(* Folding the declarations of a well-formed namespace                                         *)
+(* ------------------------------------------------------------------------------------------ *)
+Definition items_of (n : x_ns) : list ditem :=
+  map DC (xs_commons n) ++ map DE (xs_entities n) ++ map DN (xs_enums n) ++ map DA (xs_actions n).
+
+Lemma fresh_chain_app : forall a b n, fresh_chain (a ++ b) n <-> fresh_chain a n /\ fresh_chain b (add_items a n).
+Proof.
+  induction a as [|x a IH]; intros b n; cbn [app fresh_chain add_items fold_left]; [tauto|].
+  fold (add_items a (add_item x n)). rewrite IH. tauto.
+Qed.
+Lemma add_items_app : forall a b n, add_items (a ++ b) n = add_items b (add_items a n).
+Proof. intros a b n. unfold add_items. apply fold_left_app. Qed.
+
+Lemma insert_mapv_last : forall (A B : Type) (g : A -> B) pre k v, keys_sorted (pre ++ [(k, v)]) = true ->
+  rec_insert k (g v) (mapv g pre) = mapv g (pre ++ [(k, v)]).
+Proof.
+  intros A B g pre k v Hs. unfold mapv at 2. rewrite map_app. cbn [map fst snd]. apply vj_insert_last.
+  rewrite (vj_keys_sorted_ext _ (pre ++ [(k, v)])); [exact Hs|].
+  rewrite !map_app. unfold mapv. rewrite map_map. reflexivity.
+Qed.
+Lemma has_key_mapv_last : forall (A B : Type) (g : A -> B) pre k v, keys_sorted (pre ++ [(k, v)]) = true -> has_key k (mapv g pre) = false.
+Proof.
+  intros A B g pre k v Hs. apply (has_key_last B k (g v)).
+  rewrite (vj_keys_sorted_ext _ (pre ++ [(k, v)])); [exact Hs|].
+  rewrite !map_app. unfold mapv. rewrite map_map. reflexivity.
+Qed.
+Lemma has_key_mem : forall (A : Type) k (l : list (str * A)), has_key k l = mem k (map fst l).
+Proof.
+  intros A k l. unfold has_key, mem. induction l as [|[k' v] l IH]; [reflexivity|].
+  cbn [rec_get map fst existsb]. destruct (str_eqb k k'); [reflexivity|exact IH].
+Qed.
+
+Definition nsacc (cs : list (str * x_common)) (es : list (str * x_entity)) (ens : list (str * x_enum)) (acts : list (str * x_action)) : x_ns :=
+  {| xs_annots := []; xs_entities := es; xs_enums := ens; xs_commons := cs; xs_actions := acts |}.
+
+Lemma sorted_snoc : forall (A : Type) (pre : list (str * A)) kv l, keys_sorted (pre ++ kv :: l) = true -> keys_sorted (pre ++ [kv]) = true.
+Proof. intros A pre kv l H. apply (vj_sorted_app_l (pre ++ [kv]) l). rewrite <- app_assoc. exact H. Qed.
+
+Lemma phase_commons : forall l pre es ens acts, keys_sorted (pre ++ l) = true ->
+  fresh_chain (map DC l) (nsacc (mapv norm_common_t pre) es ens acts)
+  /\ add_items (map DC l) (nsacc (mapv norm_common_t pre) es ens acts) = nsacc (mapv norm_common_t (pre ++ l)) es ens acts.
+Proof.
+  induction l as [|[k v] l IH]; intros pre es ens acts Hs.
+  - rewrite app_nil_r. split; [exact I|reflexivity].
+  - pose proof (sorted_snoc _ _ _ _ Hs) as Hs1.
+    cbn [map fresh_chain add_items fold_left]. fold (add_items (map DC l)).
+    assert (E : add_item (DC (k, v)) (nsacc (mapv norm_common_t pre) es ens acts) = nsacc (mapv norm_common_t (pre ++ [(k, v)])) es ens acts).
+    { unfold add_item, set_commons, nsacc. cbn [fst snd xs_annots xs_entities xs_enums xs_commons xs_actions].
+      rewrite insert_mapv_last by exact Hs1. reflexivity. }
+    rewrite E. destruct (IH (pre ++ [(k, v)]) es ens acts ltac:(rewrite <- app_assoc; exact Hs)) as [IH1 IH2].
+    rewrite <- app_assoc in IH2. split; [split; [|exact IH1]|exact IH2].
+    cbn [fresh_item fst nsacc xs_commons]. rewrite (has_key_mapv_last _ _ _ _ _ _ Hs1). reflexivity.
+Qed.
+
+Lemma phase_entities : forall l pre cs ens acts, keys_sorted (pre ++ l) = true ->
+  (forall kv, In kv l -> has_key (fst kv) ens = false) ->
+  fresh_chain (map DE l) (nsacc cs (mapv norm_entity_t pre) ens acts)
+  /\ add_items (map DE l) (nsacc cs (mapv norm_entity_t pre) ens acts) = nsacc cs (mapv norm_entity_t (pre ++ l)) ens acts.
+Proof.
+  induction l as [|[k v] l IH]; intros pre cs ens acts Hs Hd.
+  - rewrite app_nil_r. split; [exact I|reflexivity].
+  - pose proof (sorted_snoc _ _ _ _ Hs) as Hs1.
+    cbn [map fresh_chain add_items fold_left]. fold (add_items (map DE l)).
+    assert (E : add_item (DE (k, v)) (nsacc cs (mapv norm_entity_t pre) ens acts) = nsacc cs (mapv norm_entity_t (pre ++ [(k, v)])) ens acts).
+    { unfold add_item, set_entities, nsacc. cbn [fst snd xs_annots xs_entities xs_enums xs_commons xs_actions].
+      rewrite insert_mapv_last by exact Hs1. reflexivity. }
+    rewrite E. destruct (IH (pre ++ [(k, v)]) cs ens acts ltac:(rewrite <- app_assoc; exact Hs) ltac:(intros kv Hkv; apply Hd; right; exact Hkv)) as [IH1 IH2].
+    rewrite <- app_assoc in IH2. split; [split; [|exact IH1]|exact IH2].
+    pose proof (Hd (k, v) (or_introl eq_refl)) as Hd1. cbn [fst] in Hd1.
+    cbn [fresh_item fst nsacc xs_entities xs_enums]. rewrite (has_key_mapv_last _ _ _ _ _ _ Hs1), Hd1. reflexivity.
+Qed.
+
+Lemma phase_enums : forall l pre cs es acts, keys_sorted (pre ++ l) = true ->
+  (forall kv, In kv l -> has_key (fst kv) es = false) ->
+  fresh_chain (map DN l) (nsacc cs es pre acts)
+  /\ add_items (map DN l) (nsacc cs es pre acts) = nsacc cs es (pre ++ l) acts.
+Proof.
+  induction l as [|[k v] l IH]; intros pre cs es acts Hs Hd.
+  - rewrite app_nil_r. split; [exact I|reflexivity].
+  - pose proof (sorted_snoc _ _ _ _ Hs) as Hs1.
+    cbn [map fresh_chain add_items fold_left]. fold (add_items (map DN l)).
+    assert (E : add_item (DN (k, v)) (nsacc cs es pre acts) = nsacc cs es (pre ++ [(k, v)]) acts).
+    { unfold add_item, set_enums, nsacc. cbn [fst snd xs_annots xs_entities xs_enums xs_commons xs_actions].
+      rewrite vj_insert_last by exact Hs1. reflexivity. }
+    rewrite E. destruct (IH (pre ++ [(k, v)]) cs es acts ltac:(rewrite <- app_assoc; exact Hs) ltac:(intros kv Hkv; apply Hd; right; exact Hkv)) as [IH1 IH2].
+    rewrite <- app_assoc in IH2. split; [split; [|exact IH1]|exact IH2].
+    pose proof (Hd (k, v) (or_introl eq_refl)) as Hd1. cbn [fst] in Hd1.
+    cbn [fresh_item fst nsacc xs_entities xs_enums]. rewrite (has_key_last _ _ _ _ Hs1), Hd1. reflexivity.
+Qed.
+
+Lemma phase_actions : forall l pre cs es ens, keys_sorted (pre ++ l) = true ->
+  fresh_chain (map DA l) (nsacc cs es ens (mapv norm_action_t pre))
+  /\ add_items (map DA l) (nsacc cs es ens (mapv norm_action_t pre)) = nsacc cs es ens (mapv norm_action_t (pre ++ l)).
+Proof.
+  induction l as [|[k v] l IH]; intros pre cs es ens Hs.
+  - rewrite app_nil_r. split; [exact I|reflexivity].
+  - pose proof (sorted_snoc _ _ _ _ Hs) as Hs1.
+    cbn [map fresh_chain add_items fold_left]. fold (add_items (map DA l)).
+    assert (E : add_item (DA (k, v)) (nsacc cs es ens (mapv norm_action_t pre)) = nsacc cs es ens (mapv norm_action_t (pre ++ [(k, v)]))).
+    { unfold add_item, set_actions, nsacc. cbn [fst snd xs_annots xs_entities xs_enums xs_commons xs_actions].
+      rewrite insert_mapv_last by exact Hs1. reflexivity. }
+    rewrite E. destruct (IH (pre ++ [(k, v)]) cs es ens ltac:(rewrite <- app_assoc; exact Hs)) as [IH1 IH2].
+    rewrite <- app_assoc in IH2. split; [split; [|exact IH1]|exact IH2].
+    cbn [fresh_item fst nsacc xs_actions]. rewrite (has_key_mapv_last _ _ _ _ _ _ Hs1). reflexivity.
+Qed.
+
+Record wf_ns_tp (n : x_ns) : Prop := {
+  wt_annots : annots_ok (xs_annots n) = true;
+  wt_es : keys_sorted (xs_entities n) = true;
+  wt_es_wf : forallb (fun kv : str * x_entity => is_valid_ident (fst kv) && wf_entity_t (snd kv)) (xs_entities n) = true;
+  wt_ens : keys_sorted (xs_enums n) = true;
+  wt_ens_wf : forallb (fun kv : str * x_enum => is_valid_ident (fst kv) && wf_enum_t (snd kv)) (xs_enums n) = true;
+  wt_disj : disjoint_keys (xs_entities n) (xs_enums n) = true;
+  wt_cs : keys_sorted (xs_commons n) = true;
+  wt_cs_wf : forallb (fun kv : str * x_common => is_valid_ident (fst kv) && negb (is_reserved_type_name (fst kv)) && wf_common_t (snd kv)) (xs_commons n) = true;
+  wt_as : keys_sorted (xs_actions n) = true;
+  wt_as_wf : forallb (fun kv : str * x_action => name_ok (fst kv) && wf_action_t (snd kv)) (xs_actions n) = true }.
+
+Lemma wf_ns_t_iff : forall n, wf_ns_t n = true <-> wf_ns_tp n.
+Proof.
+  intros n. unfold wf_ns_t. rewrite !andb_true_iff. split.
+  - intros H. constructor; tauto.
+  - intros [H1 H2 H3 H4 H5 H6 H7 H8 H9 H10]. tauto.
+Qed.
+
+Lemma items_fold : forall n, wf_ns_t n = true ->
+  fresh_chain (items_of n) empty_ns /\ add_items (items_of n) empty_ns = set_annots (norm_ns_t n) [].
+Proof.
+  intros n Hwf. apply wf_ns_t_iff in Hwf. destruct Hwf as [Han Hes Hesw Hens Hensw Hdj Hcs Hcsw Has Hasw].
+  unfold items_of. change empty_ns with (nsacc (mapv norm_common_t []) (mapv norm_entity_t []) [] (mapv norm_action_t [])).
+  destruct (phase_commons (xs_commons n) [] (mapv norm_entity_t []) [] (mapv norm_action_t []) Hcs) as [F1 E1].
+  destruct (phase_entities (xs_entities n) [] (mapv norm_common_t ([] ++ xs_commons n)) [] (mapv norm_action_t []) Hes ltac:(reflexivity)) as [F2 E2].
+  destruct (phase_enums (xs_enums n) [] (mapv norm_common_t ([] ++ xs_commons n)) (mapv norm_entity_t ([] ++ xs_entities n)) (mapv norm_action_t []) Hens) as [F3 E3].
+  { intros kv Hkv. rewrite has_key_mem, sj_mapv_keys. cbn [app]. unfold disjoint_keys in Hdj. rewrite forallb_forall in Hdj.
+    apply negb_true_iff. apply Hdj. exact Hkv. }
+  destruct (phase_actions (xs_actions n) [] (mapv norm_common_t ([] ++ xs_commons n)) (mapv norm_entity_t ([] ++ xs_entities n)) ([] ++ xs_enums n) Has) as [F4 E4].
+  split.
+  - apply fresh_chain_app. split; [exact F1|]. rewrite E1. apply fresh_chain_app. split; [exact F2|]. rewrite E2.
+    apply fresh_chain_app. split; [exact F3|]. rewrite E3. exact F4.
+  - rewrite !add_items_app, E1, E2, E3, E4. reflexivity.
+Qed.
+
+Lemma decl_blocks_items : forall ind n, wf_ns_t n = true -> decl_blocks ind n = map (print_item ind) (items_of n).
+Proof.
+  intros ind n Hwf. apply wf_ns_t_iff in Hwf. destruct Hwf as [Han Hes Hesw Hens Hensw Hdj Hcs Hcsw Has Hasw].
+  unfold decl_blocks, items_of. rewrite !sj_rec_id by assumption. rewrite !map_app, !map_map. reflexivity.
+Qed.
+
+(* ------------------------------------------------------------------------------------------ *)
+(* Namespaces                                                                                  *)
+(* ------------------------------------------------------------------------------------------ *)
+Lemma namespace_text : forall name n rest, wf_ns_t n = true ->
+  print_namespace (name, n) ++ rest
+  = pa 0 (xs_annots n) ++ tabs 0 ++ s_of "namespace" ++ 32 :: name ++ 32 :: 123 :: 10
+    :: join_blocks true (map (print_item 1) (items_of n)) ++ 125 :: 10 :: rest.
+Proof.
+  intros name n rest Hwf. unfold print_namespace. cbn [fst snd]. rewrite (decl_blocks_items 1 n Hwf).
+  apply wf_ns_t_iff in Hwf. destruct Hwf as [Han _ _ _ _ _ _ _ _ _]. destruct (annots_ok_inv _ Han) as [Hans _].
+  rewrite (print_annotations_sorted _ _ Hans).
+  change (s_of "namespace ") with (s_of "namespace" ++ [32]). change (s_of " {") with [32; 123]. tnorm. reflexivity.
+Qed.
+
+Lemma namespace_lemma : forall name n fuel rest st', ns_path name = true -> wf_ns_t n = true -> rd rest = SOk st' ->
+  (2 * length (print_namespace (name, n) ++ rest) + 8 <= fuel)%nat ->
+  exists st st1 st2, rd (print_namespace (name, n) ++ rest) = SOk st /\ In (tk st) [KAt; KIdent]
+    /\ parse_annotations fuel [] st = SOk (xs_annots n, st1) /\ is st1 KIdent && kw st1 "namespace" = true
+    /\ read_token st1 = SOk st2 /\ parse_namespace fuel (xs_annots n) st2 = SOk (name, norm_ns_t n, st').
+Proof.
+  intros name n fuel rest st' Hname Hwf Hrd Hf. rewrite (namespace_text name n rest Hwf) in Hf |- *.
+  destruct (items_fold n Hwf) as [Hfresh Hfold].
+  assert (Hitems : forallb wf_item (items_of n) = true).
+  { apply wf_ns_t_iff in Hwf. destruct Hwf as [Han Hes Hesw Hens Hensw Hdj Hcs Hcsw Has Hasw].
+    unfold items_of. rewrite !forallb_app. rewrite !forallb_forall in *.
+    repeat (apply andb_true_iff; split); apply forallb_forall; intros it Hit; apply in_map_iff in Hit; destruct Hit as (kv & <- & Hkv); cbn [wf_item]; auto. }
+  assert (Han : annots_ok (xs_annots n) = true) by (apply wf_ns_t_iff in Hwf; destruct Hwf; assumption).
+  destruct (namespace_loop_lemma (items_of n) true empty_ns fuel rest st' Hitems Hfresh Hrd ltac:(flen)) as (st_l & Hrd_l & Hp_l).
+  destruct (path_lemma name fuel (32 :: 123 :: 10 :: join_blocks true (map (print_item 1) (items_of n)) ++ 125 :: 10 :: rest)
+              (MkSt (mk_tok KLBrace [123]) (10 :: join_blocks true (map (print_item 1) (items_of n)) ++ 125 :: 10 :: rest))
+              (ns_path_ent_path _ Hname) eq_refl ltac:(rewrite rd_sp; apply rd_lbrace) eq_refl ltac:(flen)) as (st_p & Hrd_p & Hp_p & _).
+  match goal with |- context [rd (pa 0 ?an ++ tabs 0 ++ s_of ?kwd ++ 32 :: ?body)] =>
+    destruct (decl_wrap an 0 kwd body fuel Han eq_refl eq_refl ltac:(flen)) as (st & Hrds & Hk & Hp) end.
+  exists st. eexists. exists st_p. split; [exact Hrds|]. split; [exact Hk|]. split; [exact Hp|]. split; [reflexivity|].
+  split; [rewrite read_token_mk, rd_sp; exact Hrd_p|].
+  unfold parse_namespace. rewrite Hp_p. cbn [sbind]. rewrite (ns_path_no_cedar _ Hname). sst.
+  rewrite rd_nl, Hrd_l. sst. rewrite Hp_l. cbn [sbind]. rewrite Hfold. reflexivity.
+Qed.
+
+Lemma print_namespace_len : forall kv, (1 <= length (print_namespace kv))%nat.
+Proof. intros kv. unfold print_namespace. repeat rewrite app_length. cbn [length]. lia. Qed.
+
+(* ------------------------------------------------------------------------------------------ *)
+(* The schema loop                                                                             *)
+(* ------------------------------------------------------------------------------------------ *)
+Inductive sitem := SD (it : ditem) | SN (kv : str * x_ns).
+Definition print_sitem (x : sitem) : str := match x with SD it => print_item 0 it | SN kv => print_namespace kv end.
+Definition swf (x : sitem) : bool := match x with SD it => wf_item it | SN kv => ns_path (fst kv) && wf_ns_t (snd kv) end.
+Definition sstep (x : sitem) (p : x_ns * x_schema) : x_ns * x_schema :=
+  match x with
+  | SD it => (add_item it (fst p), snd p)
+  | SN kv => (fst p, rec_insert (fst kv) (norm_ns_t (snd kv)) (snd p))
+  end.
+Definition sfresh1 (x : sitem) (p : x_ns * x_schema) : bool :=
+  match x with SD it => fresh_item it (fst p) | SN kv => negb (has_key (fst kv) (snd p)) end.
+Fixpoint sfresh (l : list sitem) (p : x_ns * x_schema) : Prop :=
+  match l with [] => True | x :: r => sfresh1 x p = true /\ sfresh r (sstep x p) end.
+Definition ssteps (l : list sitem) (p : x_ns * x_schema) : x_ns * x_schema := fold_left (fun p x => sstep x p) l p.
+Definition sresult (p : x_ns * x_schema) : x_schema := (if has_decls (fst p) then [([], fst p)] else []) ++ snd p.
+
+Lemma print_sitem_len : forall x, (1 <= length (print_sitem x))%nat.
+Proof. intros [it|kv]; [apply print_item_len|apply print_namespace_len]. Qed.
+
+Lemma schema_loop_lemma : forall l first bare nss fuel, forallb swf l = true -> sfresh l (bare, nss) ->
+  (2 * length (join_blocks first (map print_sitem l)) + 16 <= fuel)%nat ->
+  exists st, rd (join_blocks first (map print_sitem l)) = SOk st
+             /\ schema_loop fuel bare nss st = SOk (sresult (ssteps l (bare, nss))).
+Proof.
+  induction l as [|x l IH]; intros first bare nss fuel Hwf Hfr Hf.
+  - cbn [map join_blocks] in *. eexists. split; [apply rd_nil|].
+    destruct fuel as [|f]; [exfalso; flen|]. cbn [schema_loop]. sst. reflexivity.
+  - cbn [map forallb] in *. apply andb_true_iff in Hwf. destruct Hwf as [Hx Hwf]. destruct Hfr as [Hfx Hfr].
+    rewrite join_blocks_cons in Hf |- *. rewrite rd_first.
+    destruct fuel as [|f]; [exfalso; flen|].
+    pose proof (print_sitem_len x) as Hlen.
+    destruct (IH false (fst (sstep x (bare, nss))) (snd (sstep x (bare, nss))) f Hwf
+                ltac:(rewrite <- surjective_pairing; exact Hfr) ltac:(destruct first; flen)) as (st2 & Hrd2 & Hp2).
+    rewrite <- surjective_pairing in Hp2.
+    destruct x as [it|[name n]]; cbn [print_sitem swf sfresh1 sstep fst snd] in *.
+    + destruct (item_lemma it 0 bare f _ st2 Hx Hfx Hrd2 ltac:(destruct first; flen)) as (st & st1 & an & Hrds & Hk & Hpa & Hi1 & Hkw1 & Hpd).
+      exists st. split; [exact Hrds|]. cbn [schema_loop]. rewrite (is_no st KEOF _ Hk) by reflexivity.
+      rewrite Hpa. cbn [sbind]. rewrite Hi1, Hkw1. cbn [andb]. rewrite Hpd. cbn [sbind]. exact Hp2.
+    + apply andb_true_iff in Hx. destruct Hx as [Hname Hn]. apply negb_true_iff in Hfx.
+      destruct (namespace_lemma name n f _ st2 Hname Hn Hrd2 ltac:(destruct first; flen))
+        as (st & st1 & st_p & Hrds & Hk & Hpa & Hi1 & Hrt & Hpn).
+      exists st. split; [exact Hrds|]. cbn [schema_loop]. rewrite (is_no st KEOF _ Hk) by reflexivity.
+      rewrite Hpa. cbn [sbind]. rewrite Hi1, Hrt. cbn [sbind]. rewrite Hpn. cbn [sbind]. rewrite Hfx. exact Hp2.
 Qed.
